@@ -96,7 +96,14 @@ def make(var, it, rl, counter, shape):
     assert n < 256
     if var == "mask":
         return (b * 256 + np.arange(n, dtype=np.int64)).reshape(full)
-    return (b + np.arange(n) / 1024.0).reshape(full)
+    # the dtype of two variables depends on the save number, so that an
+    # overwrite can change the dtype while keeping the shape
+    if var == "alpha" and counter % 2 == 0:
+        return (b * 256 + np.arange(n, dtype=np.int64)).reshape(full)
+    a = (b + np.arange(n) / 1024.0).reshape(full)
+    if var == "rho" and b < 2 ** 14:
+        return a.astype(np.float32)   # b + k/1024 is exact in float32 here
+    return a
 
 
 def decode(x):
